@@ -42,6 +42,14 @@ func To(fs http.FileSystem, r *http.Request, to string, replacer httpserver.Repl
 			t = path.Clean(tparts[0])
 		}
 
+		// the result is a request path: it is rooted, whatever the
+		// target or the trimmed prefix left (path scopes such as those
+		// of basicauth and internal are matched against rooted paths,
+		// while the file system would resolve an unrooted one as well)
+		if !strings.HasPrefix(t, "/") {
+			t = path.Clean("/" + t)
+		}
+
 		if len(tparts) > 1 {
 			query = tparts[1]
 		}
